@@ -26,6 +26,28 @@ Theorem c02_average_fixes_iff_all_fix (W : IPS) (ops : list (W -> W)) :
 Proof. exact (avg_fixed_iff W ops). Qed.
 Print Assumptions c02_average_fixes_iff_all_fix.
 
+(** Both steps together, with the projector hypotheses discharged: the average of a list of isometries closed under products
+    and inverses (as operators) IS an orthogonal projector (avg_sym, avg_idem in GroupAvg.v), so the unit eigenvectors of
+    C^T P C are exactly the y whose expansion is fixed by every operator of the list.  Non-vacuity: GroupAvgInst.v. *)
+Theorem c02_compressed_unit_eigs_are_invariants (U W : IPS) (Cm : U -> W) (Ct : W -> U) (ops : list (W -> W)) :
+  (forall x y, ip (Cm x) (Cm y) = ip x y) -> (forall x w, ip (Cm x) w = ip x (Ct w)) ->
+  (forall g, In g ops -> forall x y, g (vadd x y) = vadd (g x) (g y)) ->
+  (forall g, In g ops -> forall a x, g (vscale a x) = vscale a (g x)) ->
+  ops <> [] ->
+  (forall h, In h ops -> exists l', Permutation.Permutation l' ops /\
+      Forall2 (fun a b => forall v : W, a v = b v) (map (fun g v => h (g v)) ops) l') ->
+  (forall g, In g ops -> forall x y, ip (g x) (g y) = ip x y) ->
+  (exists l', Permutation.Permutation l' ops /\ Forall2 (fun a b => forall v : W, a (b v) = v) ops l') ->
+  forall y, Ct (avg W ops (Cm y)) = y <-> forall g, In g ops -> g (Cm y) = Cm y.
+Proof. exact (compressed_unit_eigs_are_invariants U W Cm Ct ops). Qed.
+Print Assumptions c02_compressed_unit_eigs_are_invariants.
+(** its hypotheses are satisfiable and its two sides both occur (instances in IPSInst.v / GroupAvgInst.v, rebuilt with this file) *)
+From SymfcV Require IPSInst GroupAvgInst.
+Theorem c02_group_average_nonvacuous :
+  (forall g, In g GroupAvgInst.ops_ex -> g (IPSInst.Cm_ex 1) = IPSInst.Cm_ex 1) /\
+  GroupAvgInst.op_swap (GroupAvgInst.Caxis_ex 1) <> GroupAvgInst.Caxis_ex 1.
+Proof. split; [exact (proj1 GroupAvgInst.diag_is_invariant) | exact (proj1 GroupAvgInst.axis_is_not_invariant)]. Qed.
+
 (** Pure translations are covered for free: anything expanded from translation classes is translation
     invariant (the class code does not change under a lattice translation), for every valid table. *)
 Theorem c02_translation_invariance N tp n tau t :
